@@ -40,28 +40,42 @@ try:
         print(out0[-600:])
     if rcb != 0:
         print(outb[-800:])
+    via_root = "--via-root" in args
+    caught = {}
+    if via_root:
+        # run the checks on the patched scratch worktree (does not touch /repo: safe to run in the background)
+        ev = tempfile.mkdtemp(prefix="seed-ev-")
+        envc = dict(os.environ, PYTHONDONTWRITEBYTECODE="1", TLSA_CACHE_DIR=os.path.join(ev, "cache"))
+        for i in range(1, 21):
+            p = f"C{i:02d}"
+            rc, out = run(["/venv/bin/python", "-m", "tlsa.main", p, "--root", wt, "--evidence-dir", ev], "/verif", envc)
+            if rc == 1:
+                caught[p] = [l.strip() for l in out.splitlines() if l.startswith("  ") and " @ " in l][:3]
+            elif rc == 2:
+                caught[p] = ["ANALYSIS-ERROR " + " | ".join(l for l in out.splitlines() if "ANALYSIS-ERROR" in l)[:200]]
+        shutil.rmtree(ev, ignore_errors=True)
 finally:
     subprocess.run(["git", "-C", "/repo", "worktree", "remove", "--force", wt], capture_output=True)
     shutil.rmtree(wt, ignore_errors=True)
 
-# run the checks against the patched /repo
-st = subprocess.run(["git", "-C", "/repo", "status", "--porcelain"], capture_output=True, text=True).stdout.strip()
-assert not st, "/repo is not clean: " + st
-rc, out = run(["git", "-C", "/repo", "apply", os.path.abspath(patch)], "/repo")
-assert rc == 0, out
-caught = {}
-try:
-    ev = tempfile.mkdtemp(prefix="seed-ev-")
-    for i in range(1, 21):
-        p = f"C{i:02d}"
-        rc, out = run(["/venv/bin/python", "-m", "tlsa.main", p, "--evidence-dir", ev], "/verif", dict(os.environ, PYTHONDONTWRITEBYTECODE="1"))
-        if rc == 1:
-            caught[p] = [l.strip() for l in out.splitlines() if l.startswith("  ") and " @ " in l][:3]
-        elif rc == 2:
-            caught[p] = ["ANALYSIS-ERROR " + " | ".join(l for l in out.splitlines() if "ANALYSIS-ERROR" in l)[:200]]
-    shutil.rmtree(ev, ignore_errors=True)
-finally:
-    subprocess.run(["git", "-C", "/repo", "checkout", "--", "."], check=True)
+if not via_root:
+    # run the checks against the patched /repo itself
+    st = subprocess.run(["git", "-C", "/repo", "status", "--porcelain"], capture_output=True, text=True).stdout.strip()
+    assert not st, "/repo is not clean: " + st
+    rc, out = run(["git", "-C", "/repo", "apply", os.path.abspath(patch)], "/repo")
+    assert rc == 0, out
+    try:
+        ev = tempfile.mkdtemp(prefix="seed-ev-")
+        for i in range(1, 21):
+            p = f"C{i:02d}"
+            rc, out = run(["/venv/bin/python", "-m", "tlsa.main", p, "--evidence-dir", ev], "/verif", dict(os.environ, PYTHONDONTWRITEBYTECODE="1"))
+            if rc == 1:
+                caught[p] = [l.strip() for l in out.splitlines() if l.startswith("  ") and " @ " in l][:3]
+            elif rc == 2:
+                caught[p] = ["ANALYSIS-ERROR " + " | ".join(l for l in out.splitlines() if "ANALYSIS-ERROR" in l)[:200]]
+        shutil.rmtree(ev, ignore_errors=True)
+    finally:
+        subprocess.run(["git", "-C", "/repo", "checkout", "--", "."], check=True)
 meta["caught_by"] = caught
 print(f"[{sid}] caught by: {json.dumps(caught, indent=1)[:1500] if caught else 'NOTHING'}")
 if keep:
